@@ -97,15 +97,23 @@ theorem escape_unescape (attr : Bool) (s : Bytes) : unescape (escape attr s) = s
   unescapeF_escape attr s _ (Nat.le_refl _)
 
 /-- Buffer management of `escapeString` (EscapeMem.lean: capacity arithmetic as coded — initial
-    `length + N`, `reserve(length + name + K + (end - i))` at every escape, capacities rounded by
-    `String::detach`; `N`, `K` and the rounding mask are regenerated from the sources on every run):
-    for every byte string and both modes no byte is ever written at or behind the reserved capacity
-    (no fault), the bytes in the buffer are exactly `escape attr s`, and the final length fits. -/
-theorem escape_no_overflow (attr : Bool) (s : Bytes) :
-    ∃ b, escapeMem attr s = some b ∧ b.out = escape attr s ∧ b.out.length ≤ b.cap := by
-  obtain ⟨b, h1, h2, h3⟩ := escLoop_ok attr s ⟨s.length + Generated.escInitialSlack, 0, []⟩ (by simp)
+    `length + N`, `resize` + `reserve(policy)` at every escape, capacities rounded by `String::detach`,
+    raw writes through `dest`): for EVERY reserve policy that reserves at least
+    written + name + 1 + remaining bytes (`PolicyOK`), every byte string and both modes, no byte
+    is ever written at or behind the reserved capacity (no fault), the bytes in the buffer are
+    exactly `escape attr s`, and the final length fits. -/
+theorem escape_no_overflow_policy (pol : Nat → Nat → Nat → Nat → Nat) (hpol : PolicyOK pol) (attr : Bool) (s : Bytes) :
+    ∃ b, escapeMemP pol attr s = some b ∧ b.out = escape attr s ∧ b.out.length ≤ b.cap := by
+  obtain ⟨b, h1, h2, h3⟩ := escLoop_ok hpol attr s ⟨s.length + Generated.escInitialSlack, 0, []⟩ (by simp)
   refine ⟨{ b with len := b.out.length }, ?_, by simpa using h2, h3⟩
-  simp only [escapeMem, h1, EscBuf.resize, if_pos h3]
+  simp only [escapeMemP, h1, EscBuf.resize, if_pos h3]
+
+/-- … in particular for the policy of the current sources (regenerated on every run into
+    Nstd/Generated/XmlEscape.lean; `genPolicy_ok`: it meets the bound — more headroom keeps this
+    true, an under-reservation does not compile). -/
+theorem escape_no_overflow (attr : Bool) (s : Bytes) :
+    ∃ b, escapeMem attr s = some b ∧ b.out = escape attr s ∧ b.out.length ≤ b.cap :=
+  escape_no_overflow_policy _ genPolicy_ok attr s
 
 /-- Round trip through `Xml::toString` (header line + `Element::toString`) and `Xml::parse`:
     for every element tree with well-formed names, pairwise different attribute keys, arbitrary
